@@ -3,6 +3,27 @@ from vlib import core
 from .base import StdCheck
 
 
+# Harmless rewrites on which the check stays green (diffs: corpus/C16/negative_controls/, each run through the whole flow
+# on a scratch-linked harness via VERIF_C16_HARNESS; none alarmed after the model took the navigation names from reflection)
+NEGATIVE_CONTROLS = [
+    "nc1 applyrule-targeted.cpp: for-check extracted into a static helper, locals renamed, GetTargetService rewritten without std::swap",
+    "nc2 different exception/CONTEXT texts in the four *-apply.cpp, filterutility.cpp and configitem.cpp (the harness only sees accepted/rejected)",
+    "nc3 targeted rules evaluated before regular ones, index filled in reverse, API fast path walks names backwards and returns each object once",
+    "nc4 equivalent guards: nested ifs for `!skipFilter && !EvaluateFilter`, single-exit FilterVarsCollideWithTarget, swapped if/else of the fast path",
+    "nc5 sound recogniser extension: GetTargetHosts also accepts `F && true` / `true && F` (so even the wrapped variant is indexed)",
+    "nc6 a new navigation field `buddy` on Host (host.ti, class regenerated, 44 dependent objects rebuilt): the bound names are read from the "
+    "type reflection on every case and are an input of the model (World.navNames), the generator draws colliding keys from them",
+]
+# Breaking changes re-run after the controls (all alarm with a concrete replay)
+SEEDED_CHANGES = [
+    "m1 AddTargetedRule without the `for` check (revert of b11cb6d): spec fastpath_independent",
+    "m2 FilterVarsCollideWithTarget with hard-coded obj/host/service instead of the navigation-field walk: spec api_fastpath_independent",
+    "m3 API fast path without the collision check (revert of 77a9c63): spec api_fastpath_independent",
+    "m4 GetComparedName also accepts `!=`: spec fastpath_independent / api_fastpath_independent",
+    "m5 GetTargetService does not require the service comparison: spec fastpath_independent / api_fastpath_independent",
+]
+
+
 class C16(StdCheck):
     prop = "C16"
     eval_key = "evaluations"
@@ -38,7 +59,11 @@ class C16(StdCheck):
                   "opaque sub-expressions (custom variables, groups, function calls) per target are oracle inputs evaluated by the real "
                   "interpreter. Not modelled: evaluation of the rule body beyond the recorded loop variables/target names, name collisions "
                   "between created objects (the driver rejects such cases explicitly), ignore_on_error, zones/packages, permission filters (C18), "
-                  "opaque atoms on services that exist only through apply Service (the generator uses none there).")
+                  "opaque atoms on services that exist only through apply Service (the generator uses none there). The set of navigation fields "
+                  "of Host/Service is an input read from the implementation's type reflection on every case (a new field is not an alarm); the "
+                  "API theorems assume only NavOk (`host`/`service` denote the target), which the driver checks on that reflection. "
+                  "Negative controls (must stay green) and seeded changes (must alarm): NEGATIVE_CONTROLS / SEEDED_CHANGES in this file, "
+                  "diffs under corpus/C16/negative_controls/.")
     trusted_base = [
         "modelled, not verified: expression evaluation of the nine AST classes the recogniser inspects, Value::operator==/ToBool, "
         "VMOps::GetField for `name`; every other expression is an opaque atom whose truth per target is read from the implementation",
@@ -59,7 +84,7 @@ class C16(StdCheck):
             "instead of literal, extra conjunct, host<->service, dropped/duplicated comparison, && for ||, negation), otherwise random boolean "
             "expressions with opaque atoms; ignore where in ~25 %; each configuration loaded as written and wrapped, Concurrency 1 (and 16 on "
             "every 3rd case; always in thorough), plus 0-4 API queries (fast vs wrapped) with filter_vars, ~8 % of them with a key that evaluation binds itself (obj, the type "
-            "name, every navigation field of the type as read from the type reflection at run time and compared with the model's apiBound; "
+            "name, every navigation field of the type as read from the type reflection at run time, which also feeds the model's World.navNames; "
             "inventory objects have check_period/event_command/command_endpoint set on some). evaluations = (rule, target) filter "
             "evaluations of the model's plain semantics + API per-object evaluations; a case is non-trivial when an apply rule created an "
             "object or the API fast path returned an object; distinct by hash of the case (counted by the Lean driver)")
